@@ -322,7 +322,14 @@ def install(it):
     import eyecite.utils as U
 
     it.stubs[set] = lambda items=(): SymSet(it, items)
-    it.stubs[collections.defaultdict] = lambda f=None: SymDD(it, f)
+    def mk_dd(f=None, init=(), **kw):
+        d = SymDD(it, f)
+        pairs = list(init.items()) if hasattr(init, "items") else list(init)
+        for k, v in pairs + list(kw.items()):
+            d[k] = v
+        return d
+
+    it.stubs[collections.defaultdict] = mk_dd
     def to_int(x=0, *a):
         if isinstance(x, NumStr):
             return SInt(x.v)
